@@ -71,6 +71,7 @@ func c01Gen(rt *rapid.T) stormCase {
 		c.Clients = append(c.Clients, sc)
 	}
 	c.Steps = genStormSteps(rt, c.Hosts, 6)
+	c.Warn = rapid.IntRange(0, 3).Draw(rt, "backendwarns") == 0
 	return c
 }
 
